@@ -160,9 +160,10 @@ func TestC12(t *testing.T) {
 			pinned, _ := os.ReadFile("testdata/context_availability_table.md")
 			r.Extra["pinned_table_equals_repo_copy_of_official_page"] = strings.Contains(string(b), strings.TrimSpace(string(pinned)))
 		}
-		r.Rule = "complete enumeration: every template leaf path of the workflow-syntax model (found in generated clean workflows) x {12 context names, 5 special functions} x embeddings {bare, comparison, function argument, nested ||/&&/! forms, index position, negation, second placeholder, after text; upper-case spelling alternated}. The governing table key is the longest table key that is a prefix of the leaf's key path (none => nothing allowed). Oracle: pinned transcription of GitHub's context availability table; 'not allowed' diagnostic on the probe line <=> not listed. Every pair is non-trivial; distinct = (leaf path + configuration, name, embedding)."
+		r.Rule = "complete enumeration: every template leaf path of the workflow-syntax model (found in generated clean workflows) x {12 context names, 5 special functions} x embeddings {bare, comparison, function argument, nested ||/&&/! forms, index position, negation, second placeholder, after text; upper-case spelling alternated}; every leaf class is then revisited in up to 5 (thorough 11) other generated workflows with shuffled key order and every 7th probe (thorough: 3 further complete instances first). The governing table key is the longest table key that is a prefix of the leaf's key path (none => nothing allowed). Oracle: pinned transcription of GitHub's context availability table; 'not allowed' diagnostic on the probe line <=> not listed. Every pair is non-trivial; distinct = (leaf path + configuration, name, embedding)."
 		r.Assumptions = []string{"pinned table: harness/checks/testdata/context_availability_table.md (copied from the official page as shipped in scripts/generate-availability/testdata/ok.md)", "for `jobs`, an `undefined variable \"jobs\"` diagnostic counts as the rejection", "not asserted: a lone expression standing for a whole mapping that the table lists entry-wise (container.env / services.<id>.env given as one expression)"}
 		done := map[string]bool{}
+		instances := map[int]int{}
 		keysSeen := map[string]bool{}
 		pairs := int64(0)
 		nviol := 0
@@ -172,7 +173,7 @@ func TestC12(t *testing.T) {
 			}
 			g := &wf.G{T: rt, Rare: true}
 			w := g.Workflow()
-			if rapid.Bool().Draw(rt, "shufflekeys") {
+			if rapid.IntRange(0, 3).Draw(rt, "shufflekeys") > 0 {
 				g.ShuffleKeys(w.Root)
 			}
 			lay := g.Layout()
@@ -199,22 +200,19 @@ func TestC12(t *testing.T) {
 				if i, ok := seqIndex[lf]; ok && i > 0 {
 					cls += fmt.Sprintf("#%d", min(i, 3)) // later elements of a sequence are positions of their own
 				}
-				if hx.Thorough() {
-					// thorough: also vary the surrounding workflow: re-enumerate a path up to 4 times
-					n := 0
-					for done[fmt.Sprintf("%s#%d", cls, n)] {
-						n++
-					}
-					if n >= 4 {
-						continue
-					}
-					done[fmt.Sprintf("%s#%d", cls, n)] = true
-				} else {
-					if done[cls] {
-						continue
-					}
-					done[cls] = true
+				// instance 0 of a leaf class gets the complete probe set; the class is then revisited in
+				// other generated workflows (other key order, other surroundings) with every 7th probe
+				// (thorough: 3 more complete instances, then sparse ones)
+				n := 0
+				for done[fmt.Sprintf("%s#%d", cls, n)] {
+					n++
 				}
+				if n >= hx.N(6, 12) {
+					continue
+				}
+				done[fmt.Sprintf("%s#%d", cls, n)] = true
+				sparse := n >= hx.N(1, 4)
+				instances[n]++
 				key := availKeyFor(tbl, info.Path)
 				keysSeen[key] = true
 				lone := info.Typed != ""
@@ -222,6 +220,9 @@ func TestC12(t *testing.T) {
 				probe := func(name string, isFunc bool, allow bool) {
 					for ei, e := range c12Embeds {
 						if lone && !e.lone {
+							continue
+						}
+						if sparse && (ei+len(name)+n)%7 != 0 {
 							continue
 						}
 						spelled := name
@@ -267,8 +268,11 @@ func TestC12(t *testing.T) {
 		})
 		var paths, keys []string
 		for p := range done {
-			paths = append(paths, p)
+			if strings.HasSuffix(p, "#0") {
+				paths = append(paths, strings.TrimSuffix(p, "#0"))
+			}
 		}
+		r.Extra["leaf_classes_by_instance_number"] = fmt.Sprint(instances)
 		for k := range keysSeen {
 			keys = append(keys, k)
 		}
